@@ -1,5 +1,5 @@
 (* Lemmas about RelEdit.v (C11), part 2: the operations on the store. *)
-From V.model Require Import Base RelLex RelParse RelEdit RelEditSpec.
+From V.model Require Import Base RelLex RelParse RelEdit RelEditSpec RelEditTree.
 From V.proofs Require Import BaseP RelEditP.
 Set Default Timeout 60.
 
